@@ -103,8 +103,14 @@ def bools_aligned_value_dim(items, ndim, sel_shape, vshape):
 
 
 def check(case):
+    import dask
+
     try:
-        return _check(case)
+        # implicit computes inside dask (a dask scalar used as a slice bound, bool(dask array), ...) must use the synchronous
+        # scheduler as well: committed replays run in the parent process, and a thread pool created there before the
+        # worker pool forks leaves the workers with a pool that has no threads (they would wait forever)
+        with dask.config.set(scheduler="synchronous"):
+            return _check(case)
     except Violation as v:
         # `raises` separates crashes from wrong answers in known-finding matches that cannot name a single exception type
         v.sig["raises"] = str(v.sig.get("symptom", "")).startswith("raises:")
